@@ -143,6 +143,25 @@ theorem atomic_if_ordered (steps : List CStep) (ho : Ordered steps = true) (s : 
 /-- `atomic_if_ordered` is not vacuous: the backend commit is ordered and can fail. -/
 example : Ordered (flatOf .be) = true ∧ okOf (flatOf .be) 0 (some 0) = false := by decide
 
+/-- For every step of the flattened commit that can fail: the cells already published when it does. -/
+def failureTraces : List (Nat × List Cell) :=
+  ((List.zipIdx flatSteps).filter (fun p => p.1.fallible)).map (fun p => (p.2, publishedCells (flatSteps.take p.2)))
+
+/-- **The exact extent of D5 today** (pinned, so that a change of the publication order — e.g. a
+publication moved even earlier — shows up as a broken obligation and triggers the search): failures
+of the four IDM reloads are traceless; a failing `qs.reload` / `set_db_ts_max` leaves the four IDM
+cells; every failure inside `be_txn.commit()` (ruv write, the three cache flushes, `COMMIT`) leaves
+all fourteen IDM + QS cells; nothing stored is ever left. -/
+theorem d5_extent :
+    failureTraces =
+      [(0, []), (1, []), (2, []), (3, []),
+       (8, [.applications, .oauth2rs, .credUpdateSessions, .oauth2ClientProviders]),
+       (9, [.applications, .oauth2rs, .credUpdateSessions, .oauth2ClientProviders])] ++
+      ([20, 21, 22, 23, 24].map fun i =>
+        (i, [.applications, .oauth2rs, .credUpdateSessions, .oauth2ClientProviders, .cid, .resolveFilterCacheWrite,
+             .schema, .dInfo, .systemConfig, .featureConfig, .phase, .dyngroupCache, .keyProviders, .accesscontrols])) := by
+  decide
+
 /-- The full property for `commit()`: a failing commit leaves no trace, whatever step fails. -/
 def commit_failure_no_trace_full : Prop :=
   ∀ (s : St), Clean s → ∀ (ops : List Op) (i : Nat),
